@@ -2340,6 +2340,127 @@ fn race_stress(nrows: i64, rounds: i64) -> Option<String> {
     }
 }
 
+// ------------------------------------------------------------------ `_id` indexes (real engine only)
+//
+// A hash / b-tree index on the system column `_id` is maintained by special cases of tx_insert, tx_delete and the
+// undo (the value is the row id, not a stored column).  Not in the Lean model; the index oracle needs no model:
+// every `_id = k` (hash) and `_id <=/>= k` (b-tree) answer must be the filter of the full scan — before, inside and
+// after transactions that insert, update, delete and then roll back or commit.
+
+fn id_index_stream(rep: &mut Report, seed_rng: &mut Rng, n: usize) {
+    let id_conds = |maxid: i64| -> Vec<Condition> {
+        let mut v = vec![];
+        for k in 0..=maxid + 1 {
+            v.push(Condition::Eq("_id".into(), Value::Int(k)));
+            v.push(Condition::Le("_id".into(), Value::Int(k)));
+            v.push(Condition::Ge("_id".into(), Value::Int(k)));
+            v.push(Condition::Gt("_id".into(), Value::Int(k)).and(Condition::Ne("c0".into(), Value::Int(0))));
+        }
+        v
+    };
+    let holds = |c: &Condition, id: u64, vals: &[i64]| -> bool {
+        fn go(c: &Condition, id: i64, vals: &[i64]) -> bool {
+            let get = |col: &str| -> Option<i64> { if col == "_id" { Some(id) } else { col.trim_start_matches('c').parse::<usize>().ok().and_then(|i| vals.get(i).copied()) } };
+            let int = |v: &Value| if let Value::Int(i) = v { Some(*i) } else { None };
+            match c {
+                Condition::True => true,
+                Condition::Eq(col, v) => get(col).is_some() && get(col) == int(v),
+                Condition::Ne(col, v) => get(col) != int(v),
+                Condition::Le(col, v) => get(col).zip(int(v)).is_some_and(|(a, b)| a <= b),
+                Condition::Ge(col, v) => get(col).zip(int(v)).is_some_and(|(a, b)| a >= b),
+                Condition::Lt(col, v) => get(col).zip(int(v)).is_some_and(|(a, b)| a < b),
+                Condition::Gt(col, v) => get(col).zip(int(v)).is_some_and(|(a, b)| a > b),
+                Condition::And(a, b) => go(a, id, vals) && go(b, id, vals),
+                Condition::Or(a, b) => go(a, id, vals) || go(b, id, vals),
+                _ => false,
+            }
+        }
+        go(c, id as i64, vals)
+    };
+    for case in 0..n {
+        let mut rng = seed_rng.fork(&format!("id{case}"));
+        let eng = RelationalEngine::new();
+        let schema = Schema::new((0..NCOLS).map(|c| Column::new(format!("c{c}"), ColumnType::Int)).collect());
+        eng.create_table("t0", schema).unwrap();
+        let mut script: Vec<String> = vec![];
+        let early = case % 2 == 0;
+        let mk = |eng: &RelationalEngine, script: &mut Vec<String>| {
+            script.push("create_index _id; create_btree_index _id".into());
+            (eng.create_index("t0", "_id").is_ok(), eng.create_btree_index("t0", "_id").is_ok())
+        };
+        if early {
+            mk(&eng, &mut script);
+        }
+        for _ in 0..rng.range(2, 4) {
+            let v = gen_vals(&mut rng, P6);
+            script.push(format!("insert {}", vals_tok(&v)));
+            let _ = eng.insert("t0", v.iter().enumerate().map(|(c, x)| (format!("c{c}"), Value::Int(*x))).collect());
+        }
+        if !early {
+            mk(&eng, &mut script);
+        }
+        let mut wrong: Option<String> = None;
+        let check = |eng: &RelationalEngine, script: &Vec<String>, site: &str, wrong: &mut Option<String>| {
+            if wrong.is_some() {
+                return;
+            }
+            let img: Vec<(u64, Vec<i64>)> = eng.select("t0", Condition::True).map(|r| World::conv_rows(&r)).unwrap_or_default();
+            let maxid = img.iter().map(|r| r.0).max().unwrap_or(0) as i64 + 2;
+            for c in id_conds(maxid) {
+                let got = eng.select("t0", c.clone()).map(|r| World::conv_rows(&r)).unwrap_or_default();
+                let want: Vec<(u64, Vec<i64>)> = img.iter().filter(|(id, v)| holds(&c, *id, v)).cloned().collect();
+                if got != want {
+                    *wrong = Some(format!("{site}|after [{}]: select {c:?} = [{}], full scan + filter = [{}]", script.join("; "), rows_tok(&got), rows_tok(&want)));
+                    return;
+                }
+            }
+        };
+        check(&eng, &script, "setup", &mut wrong);
+        for round in 0..2 {
+            let tx = eng.begin_transaction();
+            script.push("begin".into());
+            for _ in 0..rng.range(2, 5) {
+                let id = 1 + rng.below(6) as i64;
+                let (what, site) = match rng.below(4) {
+                    0 => {
+                        let v = gen_vals(&mut rng, P6);
+                        let r = eng.tx_insert(tx, "t0", v.iter().enumerate().map(|(c, x)| (format!("c{c}"), Value::Int(*x))).collect());
+                        (format!("tx_insert {} -> {:?}", vals_tok(&v), r.is_ok()), "tx_insert")
+                    },
+                    1 => {
+                        let r = eng.tx_delete(tx, "t0", Condition::Le("_id".into(), Value::Int(id)).and(Condition::Ge("_id".into(), Value::Int(id - 1))));
+                        (format!("tx_delete _id in [{}..{id}] -> {:?}", id - 1, r.ok()), "tx_delete")
+                    },
+                    2 => {
+                        let r = eng.tx_update(tx, "t0", Condition::Eq("_id".into(), Value::Int(id)), HashMap::from([("c0".to_string(), Value::Int(rng.range(0, 5)))]));
+                        (format!("tx_update _id={id} -> {:?}", r.ok()), "tx_update")
+                    },
+                    _ => {
+                        let r = eng.tx_delete(tx, "t0", Condition::Eq("_id".into(), Value::Int(id)));
+                        (format!("tx_delete _id={id} -> {:?}", r.ok()), "tx_delete")
+                    },
+                };
+                script.push(what);
+                check(&eng, &script, site, &mut wrong);
+            }
+            let site = if (case + round) % 2 == 0 {
+                script.push(format!("rollback -> {:?}", eng.rollback(tx).is_ok()));
+                "rollback"
+            } else {
+                script.push(format!("commit -> {:?}", eng.commit(tx).is_ok()));
+                "commit"
+            };
+            check(&eng, &script, site, &mut wrong);
+        }
+        rep.case("id_index", Some(&script.join("|")));
+        rep.hit("id_index_script");
+        if let Some(w) = wrong {
+            let (site, what) = w.split_once('|').unwrap_or(("select", w.as_str()));
+            rep.violation(&format!("relational_engine.{site}/id_index_answer_wrong"), what, json!({"script": script}));
+        }
+    }
+}
+
 fn race_stream(rep: &mut Report, model: &mut Model, thorough: bool) {
     let mut hook_seen = false;
     let mut seen: BTreeSet<String> = BTreeSet::new();
@@ -2514,7 +2635,7 @@ fn main() {
 
     // 2. random interleavings, no DDL inside transactions
     let mut rng = root.fork("interleave");
-    let n = if args.thorough { 6000 } else { 400 };
+    let n = if args.thorough { 5000 } else { 380 };
     for i in 0..n {
         let len = rng.range(8, 34) as usize;
         let ops = gen_script(&mut rng, len, false, P6);
@@ -2526,7 +2647,7 @@ fn main() {
     }
     // 3. random interleavings with index DDL between the statements
     let mut rng = root.fork("interleave_ddl");
-    let n = if args.thorough { 4000 } else { 300 };
+    let n = if args.thorough { 3500 } else { 280 };
     for i in 0..n {
         let len = rng.range(8, 34) as usize;
         let ops = gen_script(&mut rng, len, true, P6);
@@ -2539,7 +2660,7 @@ fn main() {
     // 3b. the same with values outside 0..5: negative numbers, i64::MIN / i64::MAX
     let wide = Cfg { lock_secs: 30, tx_secs: 60, wide: true, nulls: false };
     let mut rng = root.fork("interleave_wide");
-    let n = if args.thorough { 1500 } else { 70 };
+    let n = if args.thorough { 1200 } else { 60 };
     for i in 0..n {
         let len = rng.range(8, 30) as usize;
         let ops = gen_script(&mut rng, len, i % 2 == 1, pool(wide));
@@ -2552,7 +2673,7 @@ fn main() {
     // 3c. nullable columns: NULL stored explicitly or by omission, assigned and compared (`= NULL` through the hash
     //     index, ranges skip NULL keys), NULL refused by the other columns; every second script with the wide values too
     let mut rng = root.fork("interleave_nulls");
-    let n = if args.thorough { 2500 } else { 110 };
+    let n = if args.thorough { 2000 } else { 100 };
     for i in 0..n {
         let cfg = Cfg { lock_secs: 30, tx_secs: 60, wide: i % 2 == 1, nulls: true };
         let len = rng.range(8, 30) as usize;
@@ -2576,6 +2697,10 @@ fn main() {
         absorb(&mut rep, &mut tally, "takeover", *cfg, ops, outs.pop().unwrap(), false);
     }
 
+    // 5b. hash / b-tree indexes on the system column `_id` (real engine only: index-served answer = filter of the scan)
+    let mut rng = root.fork("id_index");
+    id_index_stream(&mut rep, &mut rng, if args.thorough { 400 } else { 40 });
+
     // 6. below statement granularity: the gap between a statement's scan and its row locks
     race_stream(&mut rep, &mut model, args.thorough);
 
@@ -2588,6 +2713,7 @@ fn main() {
         "op:insert:table_not_found", "op:update:table_not_found", "op:update:column_not_found", "op:delete_rows:table_not_found",
         "tx_select_by_open_tx", "tx_select_by_finished_tx", "and_condition_served_by_hash_index", "and_condition_served_by_btree_index",
         "directed:compound_condition_lock_set", "directed:and_condition_through_index_rollback", "directed:tx_select_open_and_finished",
+        "id_index_script",
         "directed:batch_insert_beside_open_transactions", "directed:drop_table_under_open_tx_then_rollback",
         "directed:drop_recreate_under_open_tx_then_rollback", "directed:drop_recreate_table_untouched_by_open_tx",
         "observed:relational_engine.drop_table/open_transaction_undo_applied_to_recreated_table",
